@@ -1522,6 +1522,15 @@ def trace(a, offset=0, axis1=0, axis2=1, dtype=None):
     return diagonal(a, offset=offset, axis1=axis1, axis2=axis2).sum(-1, dtype=dtype)
 
 
+def _median_block(x, axis, keepdims=False):
+    if 0 in (n for i, n in enumerate(x.shape) if i not in axis):
+        # A block that is empty along a kept axis has no slices to reduce, and
+        # np.median fails on it for several axes (it reshapes to ``(0, -1)``).
+        # The median is the mean of the middle elements: same shape and dtype
+        return np.mean(x, axis=tuple(axis), keepdims=keepdims)
+    return np.median(x, axis=axis, keepdims=keepdims)
+
+
 @derived_from(np)
 def median(a, axis=None, keepdims=False, out=None):
     """
@@ -1544,7 +1553,8 @@ def median(a, axis=None, keepdims=False, out=None):
         a = a.rechunk({ax: -1 if ax in axis else "auto" for ax in range(a.ndim)})
 
     result = a.map_blocks(
-        np.median,
+        _median_block,
+        token="median",
         axis=axis,
         keepdims=keepdims,
         drop_axis=axis if not keepdims else None,
